@@ -10,7 +10,7 @@
    holds s p: takeLocks has returned for p and giveLocks has not been called yet.  related cfg p q: one
    of them is the EUPS_LOCK_PID ancestor of the other. *)
 From Eupsv Require Import Base.Base Model.Lock Proofs.LockLib Proofs.LockNext Proofs.LockNext2 Proofs.Lock
-  Proofs.LockLive Generated.Locks Model.LockName Proofs.LockName.
+  Proofs.LockLive Generated.Locks Model.LockName Proofs.LockName Model.LockCmd Proofs.LockCmd.
 
 (* ---- mutual exclusion *)
 
@@ -276,3 +276,58 @@ Print Assumptions updaters_exclusive.
 Theorem readers_shared : forall c, In c reader_commands -> takes registered Sh c = true.
 Proof. apply forallb_forall. vm_compute. reflexivity. Qed.
 Print Assumptions readers_shared.
+
+(* ---- WHICH stacks a command locks (Model/LockCmd.v).  mutex is a statement per stack: a command excludes the
+   others exactly on the stacks it has locked.  So the clause holds of COMMANDS only if each takes its locks on
+   the stacks it works on. *)
+
+(* for every command line - EUPS_PATH of any number of stacks, -Z and -z any number of times before and after
+   the command word - the stacks the Eups object of the command works on are the stacks execute locks *)
+Theorem commands_lock_used_stacks c k : In k (used_stacks c) <-> In k (locked_stacks c).
+Proof. exact (used_iff_locked c k). Qed.
+Print Assumptions commands_lock_used_stacks.
+
+(* hence: two unrelated commands that run at the same time and WORK ON a common stack are both readers *)
+Theorem commands_exclude_on_used_stacks cfg s (line : pid -> cmdline) p q k :
+  wf cfg -> reachable cfg s -> (forall r, path_of cfg r = locked_stacks (line r)) ->
+  holds s p -> holds s q -> p <> q -> ~ related cfg p q ->
+  In k (used_stacks (line p)) -> In k (used_stacks (line q)) ->
+  kind_of cfg p = Sh /\ kind_of cfg q = Sh.
+Proof.
+  intros WF R L Hp Hq NE NR Kp Kq. apply (mutex cfg s p q k WF R Hp Hq NE NR).
+  - rewrite L. apply used_iff_locked. exact Kp.
+  - rewrite L. apply used_iff_locked. exact Kq.
+Qed.
+Print Assumptions commands_exclude_on_used_stacks.
+
+(* Locking what the dispatcher alone makes of the line (the options before the command word) is not enough:
+   eups declare -Z stack1 with EUPS_PATH = stack0 works on stack 1 and would lock stack 0; a reader of stack 1
+   then holds its lock together with the updater. *)
+Definition z_after : cmdline := {| env_path := [0]; before := []; after := [OptZ [1]] |}.
+Definition reader_of_1 : cmdline := {| env_path := [1]; before := []; after := [] |}.
+Definition dispatcher_procs : procs :=
+  [(1, (Ex, None, 1, dispatcher_stacks z_after)); (2, (Sh, None, 1, locked_stacks reader_of_1))].
+
+Theorem dispatcher_view_refuted :
+  exists sched p q k,
+    let cfg := cfg_of dispatcher_procs in
+    let s := run cfg init sched in
+    wf cfg /\ reachable cfg s /\ holds s p /\ holds s q /\ p <> q /\ ~ related cfg p q /\
+    In k (used_stacks z_after) /\ In k (used_stacks reader_of_1) /\ kind_of cfg p = Ex /\
+    ~ In k (dispatcher_stacks z_after).
+Proof.
+  exists (z [1; 1; 1; 1; 2; 2; 2; 2]), 1, 2, 1. cbv zeta.
+  split; [apply wf_cfg_of; reflexivity|].
+  split; [apply reachable_run; constructor|].
+  split; [vm_compute; reflexivity|]. split; [vm_compute; reflexivity|].
+  split; [discriminate|]. split; [intros [H|H]; vm_compute in H; discriminate|].
+  split; [vm_compute; auto|]. split; [vm_compute; auto|]. split; [vm_compute; reflexivity|].
+  vm_compute. intros [H|H]; [discriminate|exact H].
+Qed.
+Print Assumptions dispatcher_view_refuted.
+
+Example line_examples :
+  locked_stacks z_after = [1] /\ used_stacks z_after = [1] /\ dispatcher_stacks z_after = [0] /\
+  locked_stacks {| env_path := [1; 0; 1; 2]; before := [Optz (fun k => Nat.leb k 1)]; after := [] |} = [1; 0] /\
+  locked_stacks {| env_path := [0]; before := [OptZ [1]]; after := [OptZ [2; 1; 2]] |} = [2; 1].
+Proof. vm_compute. repeat split; reflexivity. Qed.
